@@ -465,6 +465,34 @@ Section Proofs.
   Qed.
 End Proofs.
 
+(* ---------------------------------------------------------------- composition with C06-M2 *)
+(* What reaches the socket: every network_write the writer started, except possibly the last one
+   it ever starts, completed with its whole buffer (writbuf fails the writer otherwise and nothing
+   is started after that); of the last one C06-M2 says a prefix p of its buffer was handed to
+   send.  So the wire is the first i buffers and a prefix of the (i+1)-th - and that is a prefix
+   of everything the writer accepted. *)
+Lemma concat_split_nth (starts : list (list N)) : forall i p q,
+  i < length starts -> nth i starts [] = p ++ q ->
+  concat starts = (concat (firstn i starts) ++ p) ++ q ++ concat (skipn (S i) starts).
+Proof.
+  induction starts as [|x r IH]; intros i p q Hi Hn; simpl in Hi; [lia|].
+  destruct i as [|i]; simpl in *.
+  - subst x. rewrite <- app_assoc. reflexivity.
+  - rewrite (IH i p q ltac:(lia) Hn). rewrite <- !app_assoc. reflexivity.
+Qed.
+
+Theorem wire_is_prefix_of_accepted_lemma : forall (starts : list (list N)) acc rest i p q wire,
+  acc = concat starts ++ rest ->
+  (i < length starts /\ nth i starts [] = p ++ q /\ wire = concat (firstn i starts) ++ p) \/
+  (wire = concat starts) ->
+  exists rest', acc = wire ++ rest'.
+Proof.
+  intros starts acc rest i p q wire Ha [(Hi & Hn & Hw)|Hw]; subst acc wire.
+  - rewrite (concat_split_nth starts i p q Hi Hn).
+    exists ((q ++ concat (skipn (S i) starts)) ++ rest). rewrite <- !app_assoc. reflexivity.
+  - eexists. reflexivity.
+Qed.
+
 (* ---------------------------------------------------------------- regression examples (old code) *)
 (* F3: before the repair a zero-length write on an idle writer reached network_write with
    length 0, whose assert(buflen != 0) aborts *)
